@@ -72,6 +72,11 @@ def run_raw(sc, oracle_classes, judged=None, want_explicit=True):
                     elif op[0] == "shallowest":
                         m = min(s.depth for s in leaves)
                         leaves = [s for s in leaves if s.depth == m]
+                    elif op[0] == "chain":
+                        # the deepest leaf on the high-index side (or low-index side): long chains, labels grow like K^depth
+                        leaves = [s for s in leaves if s.depth == ps.max_depth]
+                        leaves = [max(leaves, key=lambda q: int(q.node.get_index()))] if op[1] >= 0.5 else \
+                            [min(leaves, key=lambda q: int(q.node.get_index()))]
                     s = leaves[min(int(op[1] * len(leaves)), len(leaves) - 1)]
                     if s.depth < ps.max_depth:
                         ctx.probes["raw:expand-non-deepest-leaf"] += 1
